@@ -7,7 +7,7 @@ mc/c15_fix.py (a literal reading of the statement / of params.rst).
 Part N: same for the new-style Parameter / FormParameter / EnforcerPool / UIJson / pydantic forms
 (type, choice list, well-formed identifier, membership; these classes declare no None rule).
 Part B (histories): all call sequences up to the depth bound on the SAME validator,
-InputValidation, InputFile, Parameter, FormParameter, EnforcerPool; the verdict of every call
+InputValidation, InputFile, Parameter, FormParameter, EnforcerPool, UIJson; the verdict of every call
 must equal the reference for the CURRENT form and the verdict of a fresh object, and a refused
 call must leave data / form / stored value as they were.   DESIGN.md section 4, C15.
 """
